@@ -367,6 +367,23 @@ pub fn run(ctx: &Ctx) -> Report {
     }
     stm.samples.clear();
     total.merge(stm);
+    // long device paths of equal length that differ in one character only, at every position in
+    // turn (a fingerprint that samples the bytes of a long string), rendered back to back
+    let mut stl = Stats::new();
+    for base in ["/dev/disk/by-id/scsi-36001405e2a7f-part10", "/dev/mapper/lustre-vg0-mdt0000-a-rather-long-logical-volume-name-for-the-metadata-target-0001", &"/dev/lustre/".repeat(30)] {
+        let cs: Vec<char> = base.chars().collect();
+        let t = E::and(E::T(Tst::Name("*.dat".into())), E::A(Act::Print));
+        for i in 0..cs.len() {
+            let mut v = cs.clone();
+            v[i] = if v[i] == 'x' { 'y' } else { 'x' };
+            let variant: String = v.into_iter().collect();
+            let ops = vec![Op::Scheme(base.to_string()), Op::Scheme(variant.clone()), Op::Scheme(base.to_string()), Op::Scheme(variant)];
+            let vd = judge(&t, None, &ops);
+            stl.record(&vd, stable_hash(&(base, i)), true, || case_json(&t, None, &ops));
+        }
+    }
+    stl.samples.clear();
+    total.merge(stl);
     // device paths that a truncated fingerprint cannot tell apart, rendered one after the other
     let mut tw = Stats::new();
     let twins = fingerprint_twins("/dev/mapper/lustre-mdt", "");
